@@ -522,9 +522,90 @@ def run_mutation(res: Result, dim, system, tier):
     res.sample({"kind": "mutation", "sys": list(system), "unary_operations": len(unary), "backends": ["AKA flat", "AKA jagged", "NP 1d"]})
 
 
+def run_inplace_ops(res: Result, dim, system, tier):
+    """In-place operators and out= ufunc calls on NumPy vector arrays whose dtype lists the coordinate fields in canonical, reversed
+    and rotated order: what the operation leaves in its *target* (seen through a second reference) is, element by element and
+    field by field (by name), what the same augmented assignment leaves in an object vector of the same coordinate system;
+    the rebound name holds the same vectors."""
+    import operator as _o
+
+    NPCLS = {("generic", 2): vector.VectorNumpy2D, ("generic", 3): vector.VectorNumpy3D, ("generic", 4): vector.VectorNumpy4D,
+             ("momentum", 2): vector.MomentumNumpy2D, ("momentum", 3): vector.MomentumNumpy3D, ("momentum", 4): vector.MomentumNumpy4D}
+    vs = [v for v in A.representatives([v for v in A.vectors(dim, tier) if _well(v) and not v.has("wildphi")], 4)]
+    rows_a = [tuple(float(x) for x in S.stored(v, system)) for v in vs if S.stored(v, system) is not None]
+    ps = [p for p in A.partners(dim, "quick") if S.stored(p, system) is not None and not (p.has("spacelike") or p.has("negtime"))]
+    if len(rows_a) < 2 or not ps:
+        return
+    rows_b = [tuple(float(x) for x in S.stored(ps[i % len(ps)], system)) for i in range(len(rows_a))]
+    gnames = L.field_names(system)
+    nf = len(gnames)
+    orders = {"canonical": list(range(nf)), "reversed": list(range(nf))[::-1], "rotated": list(range(1, nf)) + [0]}
+    events = [("*= 2.5", lambda a, b: _o.imul(a, 2.5), lambda o, w: _o.imul(o, 2.5)), ("*= -0.5", lambda a, b: _o.imul(a, -0.5), lambda o, w: _o.imul(o, -0.5)),
+              ("/= 4", lambda a, b: _o.itruediv(a, 4), lambda o, w: _o.itruediv(o, 4)), ("+= b", lambda a, b: _o.iadd(a, b), lambda o, w: _o.iadd(o, w)),
+              ("-= b", lambda a, b: _o.isub(a, b), lambda o, w: _o.isub(o, w)),
+              ("numpy.negative(a, out=a)", lambda a, b: np.negative(a, out=a), lambda o, w: _o.imul(o, -1)),
+              ("numpy.multiply(a, 3, out=a)", lambda a, b: np.multiply(a, 3, out=a), lambda o, w: _o.imul(o, 3)),
+              ("numpy.add(a, b, out=a)", lambda a, b: np.add(a, b, out=a), lambda o, w: _o.iadd(o, w))]
+    for flavor in ("generic", "momentum"):
+        fnames = L.field_names(system, flavor)
+        for oname, perm in orders.items():
+            for bname in ("canonical", "reversed"):
+                for ename, f, g in events:
+                    if bname != "canonical" and "b" not in ename.replace("numpy", ""):
+                        continue
+
+                    def mk(rows, order):
+                        raw = np.zeros(len(rows), dtype=[(fnames[j], np.float64) for j in order])
+                        for j in range(nf):
+                            raw[fnames[j]] = [r[j] for r in rows]
+                        return raw.view(NPCLS[(flavor, dim)])
+
+                    a, b = mk(rows_a, perm), mk(rows_b, orders[bname])
+                    alias = a
+                    res.states += 1
+                    res.evaluations += 1
+                    res.transitions += 1 + len(rows_a)
+                    case = {"kind": "inplace_ops", "dim": dim, "sys": list(system), "flavor": flavor, "field_order": oname, "operand_field_order": bname, "event": ename}
+                    cls = f"inplace_ops|{ename}|{L.sysname(system)}|{oname}" + ("" if bname == "canonical" else "|operand-" + bname)
+                    try:
+                        a = f(a, b)
+                    except Exception as e:  # noqa: BLE001
+                        res.violation(cls + "|raises", f"{ename} on a NumPy array with fields {alias.dtype.names} raised {type(e).__name__}: {str(e)[:140]}", case)
+                        continue
+                    bad = None
+                    for i in range(len(rows_a)):
+                        o, w = B.make_obj(system, flavor, rows_a[i]), B.make_obj(system, flavor, rows_b[i])
+                        o = g(o, w)
+                        osys, ost = L.system_of(o)
+                        for holder, what in ((alias, "target"), (a, "rebound name")):
+                            res.traces += 1
+                            try:
+                                hsys = B.system_of_fields(holder.dtype.names)
+                                got = [float(holder.view(np.ndarray)[n][i]) for n in L.field_names(hsys)]
+                            except Exception as e:  # noqa: BLE001
+                                bad = f"{what}: {type(e).__name__}: {e}"
+                                break
+                            if hsys != osys:
+                                ref = getattr(o, "to_" + "".join(L.field_names(hsys)))()
+                                want = [float(x) for x in L.system_of(ref)[1]]
+                            else:
+                                want = [float(x) for x in ost]
+                            if not all((angle_close(p, q) if n == "phi" else fclose(p, q, 64.0)) for n, p, q in zip(L.field_names(hsys), got, want)):
+                                bad = f"element {i} of the {what} (fields {holder.dtype.names}) holds {dict(zip(L.field_names(hsys), got))}, the object backend after the same {ename} holds {dict(zip(L.field_names(hsys), want))}"
+                                break
+                        if bad:
+                            break
+                    if bad:
+                        res.violation(cls, f"{ename}: {bad}", case)
+                    else:
+                        res.nontrivial += 1
+    res.sample({"kind": "inplace_ops", "sys": list(system), "events": [e[0] for e in events], "field_orders": list(orders)})
+
+
 def run_shard(shard, tier):
     res = Result()
     if shard.get("kind") == "mutation":
+        run_inplace_ops(res, shard["dim"], tuple(shard["sys"]), tier)
         run_mutation(res, shard["dim"], tuple(shard["sys"]), tier)
         return res
     op = BY_KEY[shard["op"]]
@@ -681,6 +762,9 @@ def replay(case):
     if case.get("kind") == "broadcast":
         op = BY_KEY[case["op"]]
         run_broadcast(res, op, len(case["sysA"]) + 1, (len(case["sysB"]) + 1) if case.get("sysB") else None, "quick")
+        return res
+    if case.get("kind") == "inplace_ops":
+        run_inplace_ops(res, case["dim"], tuple(case["sys"]), "quick")
         return res
     if case.get("kind") == "mutation":
         run_mutation(res, case["dim"], tuple(case["sys"]), "quick")
